@@ -140,6 +140,19 @@ func (fr *frame) execInstr(st *state, in ssa.Instruction) {
 	case *ssa.UnOp:
 		fr.execUnOp(st, v)
 	case *ssa.Store:
+		if fc.e.contracts.NoCaptureWrite[fc.e.keyOf(fr.fn)] {
+			base := v.Addr
+			for {
+				if fa, ok := base.(*ssa.FieldAddr); ok {
+					base = fa.X
+					continue
+				}
+				break
+			}
+			if fv, ok := base.(*ssa.FreeVar); ok {
+				fr.oblige(st, "captureframe", fv.Name(), v.Pos(), "false", "a callback that outlives its creator assigns the captured variable "+fv.Name()+" (state shared by all its invocations: C18)")
+			}
+		}
 		val := fr.val(v.Val)
 		fr.markEscaped(st, val, v.Val.Type())
 		if l, ok := fr.locs[v.Addr]; ok {
